@@ -1,8 +1,51 @@
-// Package c11: stub (property not built yet).
 package c11
 
-import "verifharness/hk"
+import (
+	"fmt"
+	"io"
+	"strings"
+	"perkeep.org/pkg/blob"
+	"verifharness/hk"
+)
 
 func NewExec() func(w []string) string { return func([]string) string { return "bad-op" } }
 
 func Run(r *hk.Run) { r.Note("not built yet") }
+
+// Scratch is a temporary probe.
+func Scratch() {
+	w, err := newWorld()
+	if err != nil {
+		panic(err)
+	}
+	put := func(s string) blob.Ref {
+		br := blob.RefFromString(s)
+		_, err := w.sto.ReceiveBlob(ctxbg, br, strings.NewReader(s))
+		if err != nil {
+			panic(err)
+		}
+		w.quiesce()
+		return br
+	}
+	get := func(br blob.Ref) string {
+		rc, _, err := w.sto.Fetch(ctxbg, br)
+		if err != nil {
+			return "ERR " + err.Error()
+		}
+		b, _ := io.ReadAll(rc)
+		return string(b)
+	}
+	v := put("victim")
+	wr := put("other-content")
+	_ = wr
+	encW := w.blobs.names[1]
+	look := metaHeader + v.String() + "/6/" + encW + "\n"
+	put(look)
+	encL := w.blobs.names[2]
+	// replace the victim's meta blob content by the ciphertext of the lookalike
+	w.meta.m[w.meta.names[0]] = w.blobs.m[encL]
+	w.freshKV()
+	fmt.Println("restart:", w.start(nil))
+	fmt.Println("fetch victim:", get(v))
+	fmt.Println("fetch other:", get(wr))
+}
